@@ -23,6 +23,7 @@ func (l *Lab) buildPy() error {
 	cases := []string{}
 	classes := map[string]map[string]string{}
 	builders := map[string]bool{}
+	structs := map[string][]string{}
 	for _, c := range l.Cases {
 		if !c.generated() {
 			continue
@@ -33,10 +34,15 @@ func (l *Lab) buildPy() error {
 		}
 		cases = append(cases, c.ID)
 		m := map[string]string{}
+		st := []string{}
 		for _, o := range c.PyObjects {
 			m[o.Name] = o.GoName
+			if o.HasNew {
+				st = append(st, o.Name)
+			}
 		}
 		classes[c.ID] = m
+		structs[c.ID] = st
 		if _, ok := c.Files["python/builders/"+c.ID+".py"]; ok {
 			builders[c.ID] = true
 		}
@@ -49,7 +55,7 @@ func (l *Lab) buildPy() error {
 		}
 		exts = append(exts, filepath.Join(l.Dir, p))
 	}
-	spec["cases"], spec["classes"], spec["builders"], spec["exts"] = cases, classes, builders, exts
+	spec["cases"], spec["classes"], spec["builders"], spec["exts"], spec["structs"] = cases, classes, builders, exts, structs
 	raw, _ := json.Marshal(spec)
 	if err := l.writeFile("py/spec.json", raw); err != nil {
 		return err
